@@ -527,7 +527,7 @@ class SimProcess:
         if self._task is not None:
             raise AssertionError("cannot start a process twice")
         payload = pickle.dumps(self, protocol=pickle.HIGHEST_PROTOCOL)
-        k.yield_(lambda: True, "start", self._sim_name(), len(payload))
+        k.yield_(lambda: True, "start", self._sim_name())  # (payload size depends on set order, i.e. the hash seed)
         child = pickle.loads(payload)
         name = k.unique_name(self._sim_name())
         task = k.spawn(child.run, name, parent=parent)
